@@ -287,7 +287,11 @@ pub fn eval_node<F: FnMut(&GraphColoredVertices, &str)>(
                             domain: domain.clone(),
                         });
                     }
-                    if domain_set.is_empty() {
+                    // the valid domain of the var is computed with respect to the unit BDD of the (current) graph,
+                    // so it can also be empty if the domain has no colors in common with the domains of enclosing
+                    // quantifiers (that were already used to restrict the graph)
+                    let var_domain = compute_valid_domain_for_var(graph, domain_set, &var);
+                    if var_domain.is_empty() {
                         return match op.clone() {
                             HybridOp::Bind => graph.mk_empty_colored_vertices(),
                             HybridOp::Exists => graph.mk_empty_colored_vertices(),
@@ -297,7 +301,6 @@ pub fn eval_node<F: FnMut(&GraphColoredVertices, &str)>(
                     }
 
                     // restrict the var domain in unit BDD of the graph
-                    let var_domain = compute_valid_domain_for_var(graph, domain_set, &var);
                     let restricted_graph = restrict_stg_unit_bdd(graph, &var_domain);
 
                     let child_eval = eval_node(
